@@ -8,6 +8,10 @@ import Hpl.Spec.Typing
 import Hpl.Spec.Scoping
 import Hpl.Model.Canon
 import Hpl.Spec.Canonical
+import Hpl.Spec.Eval
+import Hpl.Spec.Shapes
+import Hpl.Model.Rewrite.Split
+import Hpl.Model.Rewrite.Refactor
 /-! Line-protocol driver: one S-expression request per line on stdin, one canonical answer per line on stdout. -/
 open Hpl
 open Hpl.Codec
@@ -126,6 +130,60 @@ def handle (req : Sexp) : Sexp :=
     match decProperty p with
     | some p => okS ((canonicalSpec p).map encProperty)
     | none => errS "protocol" "canonspec"
+  | .list [.atom "splitand", x] =>
+    match decExpr x with
+    | some e => encM (fun es => es.map encExpr) (splitAnd e)
+    | none => match decPred x with
+      | some p => encM (fun es => es.map encExpr) (splitAndPred p)
+      | none => errS "protocol" "splitand"
+  | .list [.atom "refactor", x, .str alias] =>
+    match decExpr x with
+    | some e => encM (fun r => [encExpr r.1, encExpr r.2]) (refactorExpr e alias)
+    | none => match decPred x with
+      | some p => encM (fun r => [encPred r.1, encPred r.2]) (refactorPred p alias)
+      | none => errS "protocol" "refactor"
+  | .list [.atom "negate", x] =>
+    match decPred x with
+    | some p => encM (fun r => [encPred r]) p.negate
+    | none => errS "protocol" "negate"
+  | .list [.atom "join", x, y] =>
+    match decPred x, decPred y with
+    | some p, some q => encM (fun r => [encPred r]) (p.join q)
+    | _, _ => errS "protocol" "join"
+  | .list [.atom "thisvar", x, .str alias] =>
+    match decExpr x with
+    | some e => encM (fun r => [encExpr r]) (match e with | .this _ => .ok (.var T.ITEM alias) | _ => replaceThisWithVarE e alias)
+    | none => match decPred x with
+      | some p => encM (fun r => [encPred r]) (replaceThisWithVarP p alias)
+      | none => errS "protocol" "thisvar"
+  | .list [.atom "varthis", x, .str alias] =>
+    match decExpr x with
+    | some e => encM (fun r => [encExpr r]) (replaceVarWithThisE e alias)
+    | none => match decPred x with
+      | some p => encM (fun r => [encPred r]) (replaceVarWithThisP p alias)
+      | none => errS "protocol" "varthis"
+  | .list [.atom "mkevent", .str n, a, p] =>
+    match decPred p with
+    | some p => encM (fun e => [encEvent e]) (mkSimpleEvent n (match a with | .str a => some a | _ => none) p)
+    | none => errS "protocol" "mkevent"
+  | .list (.atom "eval" :: env :: xs) =>
+    -- spec evaluator: one environment, several expressions / predicates; opaque functions refuse (no table given)
+    match decEnv env with
+    | some ρ =>
+      let opq : Opaque := fun _ _ => .error .opaque
+      let one (x : Sexp) : Sexp :=
+        match decExpr x with
+        | some e => (match eval opq ρ e with | .ok v => .list [.atom "ok", encValue v] | .error er => encEvErr er)
+        | none => match decPred x with
+          | some p => (match evalPred opq ρ p with | .ok b => .list [.atom "ok", encValue (Value.bool b)] | .error er => encEvErr er)
+          | none => errS "protocol" "eval item"
+      okS (xs.map one)
+    | none => errS "protocol" "eval env"
+  | .list (.atom "shapes" :: xs) =>
+    -- per expression: indivisible? boolean-typed? free variables
+    match xs.mapM decExpr with
+    | some es => okS (es.map (fun e => .list [Sexp.ofBool (indivisible e), Sexp.ofBool (e.ty &&& T.BOOL != 0), .list (e.freeVars.map Sexp.str)]))
+    | none => errS "protocol" "shapes"
   | .list [.atom "ping"] => okS [.atom "pong"]
   | _ => errS "protocol" "unknown request"
 
